@@ -13,7 +13,9 @@ Record c5_case := {
   c5_tables : list tbl_obs;                 (* analysis/sql, through its exported API *)
   c5_funs : list gfun;                      (* read from the real generated Go file *)
   c5_scans : list (string * list string);   (* Go table type, destinations of scanOne<T> *)
-  c5_schema : list schema_tbl               (* read from the real SQL script *)
+  c5_schema : list schema_tbl;              (* read from the real SQL script *)
+  c5_mode : nat    (* 0: every defect counts; 1: the defects of the recorded findings are left out; 2: only they count
+                      (a file aimed at a recorded finding is evaluated twice, so that the finding hides nothing else) *)
 }.
 
 Fixpoint list_eqb {A} (f : A -> A -> bool) (a b : list A) : bool :=
@@ -157,9 +159,14 @@ Definition table_premises (t : tbl_obs) : bool :=
      | None => true
      end.
 
+Definition recorded (d : defect) : bool := match d with DSingleColumnRow | DEmptyWhere => true | _ => false end.
+
+Definition counted (c : c5_case) (d : defect) : bool :=
+  match c5_mode c with 0 => true | 1 => negb (recorded d) | _ => recorded d end.
+
 Definition chk_prop (c : c5_case) : bool :=
-  forallb table_premises (c5_tables c)
-  && forallb (fun f => match stmt_defects c f with [] => true | _ => false end) (c5_funs c).
+  (Nat.eqb (c5_mode c) 2 || forallb table_premises (c5_tables c))
+  && forallb (fun f => match filter (counted c) (stmt_defects c f) with [] => true | _ => false end) (c5_funs c).
 
 Section Generic.
   Context {A : Type} (f : A -> bool).
